@@ -251,7 +251,7 @@ static bool runC01(Rng& r, const C01Case& c, const std::vector<size_t>& chunks, 
   w.chunks = chunks;
   w.start(&r);
   w.bus.burst = burst;
-  w.bus.autoSyn = true;          // after the script the sync generator keeps the bus alive for a few more SYNs
+  w.bus.autoSyn = !c.cfg.generateSyn;   // after the script the sync generator keeps the bus alive for a few more SYNs (unless the host generates them)
   w.bus.autoSynBudget = 6;
   for (auto& it : c.items) w.bus.script.push_back(it);
   bool fin = w.run();
@@ -266,6 +266,7 @@ static bool runC01(Rng& r, const C01Case& c, const std::vector<size_t>& chunks, 
   st.n["telegrams_reported"] += (long long)rep.size();
   for (auto& m : w.lis.msgs) if (m.dir != md_recv) { violation("c01-non-passive-report", tag + " " + c.cfg.str()); return false; }
   if (c.cfg.readOnly && w.bus.hostBytes > 0) { violation("c01-readonly-transmits", tag + " " + c.cfg.str()); return false; }
+  if (c.cfg.generateSyn) { st.n["gensyn_runs"]++; for (auto& e : w.bus.log) if (e.origin == 'H' && e.hostWrote == 0xAA) st.n["host_auto_syns"]++; }
   if (g_verbose) { printf("BUS %s\n", logHex(w.bus.log).c_str()); for (auto& m : w.lis.msgs) printf("REP %s\n", telStr(m.master, m.slave).c_str()); for (auto& t : ref) printf("REF %s\n", telStr(t.master, t.slave).c_str());
     std::string sts; for (auto& x : w.lis.states) sts += std::to_string((int)x.first) + ":" + std::to_string((int)x.second) + " "; printf("STATES %s\n", sts.c_str());
     std::string dg; for (auto& x : w.handler->diag) dg += x + "|"; printf("DIAG %s\n", dg.c_str()); if (w.tdev) printf("TRACE %s\n", w.tdev->trace.c_str()); }
@@ -315,7 +316,7 @@ static void modeC01(Rng& r0, long ncases) {
     c.cfg.readOnly = r.chance(1, 4);
     c.cfg.answer = !c.cfg.readOnly && r.chance(1, 3);
     c.cfg.lockCount = r.pick(std::vector<unsigned>{0, 0, 3, 5, 25});
-    c.cfg.generateSyn = false;
+    c.cfg.generateSyn = !c.cfg.readOnly && r.chance(1, 4);   // then the host is the only SYN generator after the script's own SYNs
     buildC01(r, &c, r.range(3, 14));
     bool hasOk = false, hasBad = false;
     for (auto& d : c.desc) { if (d == "ok") hasOk = true; else hasBad = true; }
@@ -350,6 +351,7 @@ struct ActiveCase {
   long echoCorruptAt = -1;
   std::vector<AnswerDef> answers;
   std::string desc;
+  int busSynMode = 0;     // 0: the bus has its own SYN generator, 1: it has none (the host must generate), 2: it fails after the script
 };
 
 static std::vector<uint8_t> randMaster(Rng& r, uint8_t own, int kind = -1) {
@@ -391,7 +393,7 @@ static bool runActive(Rng& r, const ActiveCase& c, const std::string& tag, const
   World w;
   w.cfg = c.cfg;
   w.start(&r);
-  w.bus.autoSyn = true;
+  w.bus.autoSyn = c.busSynMode != 1;
   w.bus.echoCorruptAt = c.echoCorruptAt;
   for (auto& p : c.peers) w.bus.peers.push_back(p);
   Item s; s.kind = Item::SYN;
@@ -426,6 +428,7 @@ static bool runActive(Rng& r, const ActiveCase& c, const std::string& tag, const
     w.steps++;
     bool allDone = true;
     for (auto& sb : subs) if (!sb.submitted || sb.req->notifications == 0) allDone = false;
+    if (c.busSynMode == 2 && w.bus.script.empty() && w.bus.autoSyn) { w.bus.autoSyn = false; }
     if (allDone && w.bus.script.empty() && !w.bus.awaitHostAnswer) {
       if (w.bus.autoSynBudget > 4) w.bus.autoSynBudget = 4;
       if (w.bus.scriptDone() && g.rx.empty() && ++quiet > 6) { fin = true; break; }
@@ -520,7 +523,8 @@ static void modeActive(long ncases, const std::string& which) {
     c.cfg.busLostRetries = r.pick(std::vector<unsigned>{0, 1, 3});
     c.cfg.failedSendRetries = 0;
     c.cfg.readOnly = which == "c03" && r.chance(1, 8);
-    c.cfg.generateSyn = false;
+    c.cfg.generateSyn = which == "c03" && r.chance(1, 4);
+    c.busSynMode = c.cfg.generateSyn ? r.range(0, 2) : 0;
     bool hostileTraffic = which == "c03";
     int nreq = r.range(1, 3);
     int64_t at = (int64_t)r.range(150, 400) * MS;
@@ -551,7 +555,7 @@ static void modeActive(long ncases, const std::string& which) {
       }
       s.gap = 0;
     }
-    c.desc = which + " nreq=" + std::to_string(nreq) + " foreign=" + std::to_string(c.items.size()) + " echoCorruptAt=" + std::to_string(c.echoCorruptAt);
+    c.desc = which + " bussyn=" + std::to_string(c.busSynMode) + " nreq=" + std::to_string(nreq) + " foreign=" + std::to_string(c.items.size()) + " echoCorruptAt=" + std::to_string(c.echoCorruptAt);
     current(which + " case " + std::to_string(ci));
     st.n["evaluations"]++;
     ActiveResult res;
